@@ -1,5 +1,333 @@
 package main
 
-import "fmt"
+// Translator for the four Config.Validate methods (frontend/http, frontend/udp,
+// storage/memory, storage/redis) and the default constants they use.
+//
+// Emits, per package, a Lean structure with the fields Validate reads or writes
+// (numeric fields as Int, string fields as their emptiness `<F>_empty : Bool`),
+// the constants, and `validate : Cfg → Cfg` with the same if-chain as the source.
 
-func trValidate(repo string) (string, error) { return "", fmt.Errorf("not implemented yet") }
+import (
+	"fmt"
+	"go/ast"
+	"go/parser"
+	"go/token"
+	"path/filepath"
+	"sort"
+	"strconv"
+	"strings"
+)
+
+type vpkg struct {
+	ns    string
+	dir   string
+	files []string
+}
+
+var durUnits = map[string]int64{"time.Nanosecond": 1, "time.Microsecond": 1e3, "time.Millisecond": 1e6, "time.Second": 1e9, "time.Minute": 60e9, "time.Hour": 3600e9}
+
+func constVal(e ast.Expr, consts map[string]string) (string, bool, error) {
+	switch x := e.(type) {
+	case *ast.ParenExpr:
+		return constVal(x.X, consts)
+	case *ast.BasicLit:
+		if x.Kind == token.INT {
+			return x.Value, false, nil
+		}
+		if x.Kind == token.STRING {
+			return x.Value, true, nil
+		}
+	case *ast.SelectorExpr:
+		if v, ok := durUnits[exprString(x)]; ok {
+			return strconv.FormatInt(v, 10), false, nil
+		}
+		if exprString(x) == "math.MaxInt" {
+			return "9223372036854775807", false, nil
+		}
+	case *ast.Ident:
+		if v, ok := consts[x.Name]; ok {
+			return v, false, nil
+		}
+	case *ast.BinaryExpr:
+		a, _, err := constVal(x.X, consts)
+		if err != nil {
+			return "", false, err
+		}
+		b, _, err := constVal(x.Y, consts)
+		if err != nil {
+			return "", false, err
+		}
+		switch x.Op {
+		case token.MUL:
+			return "(" + a + " * " + b + ")", false, nil
+		case token.QUO:
+			return "(" + a + " / " + b + ")", false, nil
+		case token.ADD:
+			return "(" + a + " + " + b + ")", false, nil
+		}
+	}
+	return "", false, fmt.Errorf("unsupported constant expression %s", exprString(e))
+}
+
+func isLogOnly(s ast.Stmt) bool {
+	switch x := s.(type) {
+	case *ast.ExprStmt:
+		if c, ok := x.X.(*ast.CallExpr); ok {
+			f := exprString(c.Fun)
+			return strings.HasPrefix(f, "log.") || f == "rand.Seed"
+		}
+	case *ast.IfStmt:
+		if x.Else != nil {
+			return false
+		}
+		for _, b := range x.Body.List {
+			if !isLogOnly(b) {
+				return false
+			}
+		}
+		return true
+	}
+	return false
+}
+
+func trValidateOne(repo string, p vpkg) (string, error) {
+	fset := token.NewFileSet()
+	consts := map[string]string{}
+	var constOrder []string
+	strConsts := map[string]bool{}
+	var validate *ast.FuncDecl
+	for _, fn := range p.files {
+		f, err := parser.ParseFile(fset, filepath.Join(repo, p.dir, fn), nil, 0)
+		if err != nil {
+			return "", err
+		}
+		for _, d := range f.Decls {
+			switch x := d.(type) {
+			case *ast.GenDecl:
+				if x.Tok != token.CONST {
+					continue
+				}
+				for _, sp := range x.Specs {
+					vs := sp.(*ast.ValueSpec)
+					for i, n := range vs.Names {
+						if !strings.HasPrefix(n.Name, "default") || i >= len(vs.Values) {
+							continue
+						}
+						v, isStr, err := constVal(vs.Values[i], consts)
+						if err != nil {
+							return "", fmt.Errorf("%s: const %s: %v", p.dir, n.Name, err)
+						}
+						if isStr {
+							strConsts[n.Name] = v != `""`
+							continue
+						}
+						consts[n.Name] = v
+						constOrder = append(constOrder, n.Name)
+					}
+				}
+			case *ast.FuncDecl:
+				if x.Name.Name == "Validate" && x.Recv != nil && len(x.Recv.List) == 1 && exprString(x.Recv.List[0].Type) == "Config" {
+					validate = x
+				}
+			}
+		}
+	}
+	if validate == nil {
+		return "", fmt.Errorf("%s: Config.Validate not found", p.dir)
+	}
+	recv := validate.Recv.List[0].Names[0].Name
+	fields := map[string]bool{} // name -> isString
+	fieldDef := map[string]string{}
+	out := ""
+	for _, st := range validate.Body.List {
+		switch x := st.(type) {
+		case *ast.AssignStmt:
+			if len(x.Lhs) == 1 && len(x.Rhs) == 1 && x.Tok == token.DEFINE && exprString(x.Rhs[0]) == recv {
+				out = exprString(x.Lhs[0])
+				continue
+			}
+			return "", fmt.Errorf("%s: unsupported top-level assignment", p.dir)
+		case *ast.ReturnStmt:
+			if len(x.Results) != 1 || exprString(x.Results[0]) != out {
+				return "", fmt.Errorf("%s: unsupported return", p.dir)
+			}
+		case *ast.IfStmt:
+			if x.Else != nil || x.Init != nil {
+				return "", fmt.Errorf("%s: unsupported if form", p.dir)
+			}
+			cond, err := vcond(x.Cond, recv, consts, fields)
+			if err != nil {
+				return "", fmt.Errorf("%s: %v", p.dir, err)
+			}
+			var sets []string
+			for _, b := range x.Body.List {
+				if as, ok := b.(*ast.AssignStmt); ok && len(as.Lhs) == 1 {
+					if sel, ok := as.Lhs[0].(*ast.SelectorExpr); ok && exprString(sel.X) == out && as.Tok == token.ASSIGN {
+						f := sel.Sel.Name
+						rhs := exprString(as.Rhs[0])
+						if _, isNum := consts[rhs]; isNum {
+							fields[f] = false
+							sets = append(sets, fmt.Sprintf("%s := %s", f, rhs))
+							continue
+						}
+						if nonEmpty, ok := strConsts[rhs]; ok && nonEmpty {
+							fields[f] = true
+							sets = append(sets, fmt.Sprintf("%s_empty := false", f))
+							continue
+						}
+						if c, ok := as.Rhs[0].(*ast.CallExpr); ok && exprString(c.Fun) == "string" && len(c.Args) == 1 && exprString(c.Args[0]) == "pkeyRunes" {
+							// generated private key: 64 runes, hence non-empty (the loop fills a slice made with length 64)
+							fields[f] = true
+							sets = append(sets, fmt.Sprintf("%s_empty := false", f))
+							continue
+						}
+						return "", fmt.Errorf("%s: unsupported default for %s: %s", p.dir, f, rhs)
+					}
+					// local helper assignment (pkeyRunes := make(...))
+					if as.Tok == token.DEFINE {
+						continue
+					}
+					return "", fmt.Errorf("%s: unsupported assignment in if body", p.dir)
+				}
+				if _, ok := b.(*ast.RangeStmt); ok {
+					continue
+				}
+				if isLogOnly(b) {
+					continue
+				}
+				return "", fmt.Errorf("%s: unsupported statement %T in if body", p.dir, b)
+			}
+			if len(sets) == 0 {
+				return "", fmt.Errorf("%s: if without effect", p.dir)
+			}
+			for _, st := range sets {
+				kv := strings.SplitN(st, " := ", 2)
+				if _, dup := fieldDef[kv[0]]; dup {
+					return "", fmt.Errorf("%s: field %s is defaulted in more than one place", p.dir, kv[0])
+				}
+				fieldDef[kv[0]] = fmt.Sprintf("if %s then %s else %s.%s", cond, kv[1], recv, kv[0])
+			}
+		default:
+			return "", fmt.Errorf("%s: unsupported statement %T", p.dir, st)
+		}
+	}
+	var fl []string
+	for f := range fields {
+		fl = append(fl, f)
+	}
+	sort.Strings(fl)
+	var sb strings.Builder
+	fmt.Fprintf(&sb, "namespace %s\n\n", p.ns)
+	for _, c := range constOrder {
+		fmt.Fprintf(&sb, "def %s : Int := %s\n", c, consts[c])
+	}
+	sb.WriteString("\nstructure Cfg where\n")
+	for _, f := range fl {
+		if fields[f] {
+			fmt.Fprintf(&sb, "  %s_empty : Bool\n", f)
+		} else {
+			fmt.Fprintf(&sb, "  %s : Int\n", f)
+		}
+	}
+	sb.WriteString("  deriving DecidableEq, Repr\n\n")
+	// Every `if` reads only the receiver (checked in vcond) and every field is defaulted in at most
+	// one place (checked above), so the sequential if-chain equals this field-wise definition.
+	fmt.Fprintf(&sb, "def validate (%s : Cfg) : Cfg :=\n  {", recv)
+	for i, f := range fl {
+		name := f
+		if fields[f] {
+			name = f + "_empty"
+		}
+		d, ok := fieldDef[name]
+		if !ok {
+			d = recv + "." + name
+		}
+		sep := ","
+		if i == len(fl)-1 {
+			sep = " }"
+		}
+		fmt.Fprintf(&sb, "\n    %s := %s%s", name, d, sep)
+	}
+	sb.WriteString("\n\n")
+	// every governed numeric field, for the positivity theorem
+	sb.WriteString("def allPositive (c : Cfg) : Prop :=\n  ")
+	var conj []string
+	for _, f := range fl {
+		if fields[f] {
+			conj = append(conj, fmt.Sprintf("c.%s_empty = false", f))
+		} else {
+			conj = append(conj, fmt.Sprintf("0 < c.%s", f))
+		}
+	}
+	sb.WriteString(strings.Join(conj, " ∧ ") + "\n\n")
+	fmt.Fprintf(&sb, "end %s\n\n", p.ns)
+	return sb.String(), nil
+}
+
+func vcond(e ast.Expr, recv string, consts map[string]string, fields map[string]bool) (string, error) {
+	switch x := e.(type) {
+	case *ast.ParenExpr:
+		return vcond(x.X, recv, consts, fields)
+	case *ast.BinaryExpr:
+		if x.Op == token.LOR {
+			a, err := vcond(x.X, recv, consts, fields)
+			if err != nil {
+				return "", err
+			}
+			b, err := vcond(x.Y, recv, consts, fields)
+			if err != nil {
+				return "", err
+			}
+			return "(" + a + " ∨ " + b + ")", nil
+		}
+		sel, ok := x.X.(*ast.SelectorExpr)
+		if !ok || exprString(sel.X) != recv {
+			return "", fmt.Errorf("unsupported condition operand %s", exprString(x.X))
+		}
+		f := sel.Sel.Name
+		if lit, ok := x.Y.(*ast.BasicLit); ok && lit.Kind == token.STRING && lit.Value == `""` && x.Op == token.EQL {
+			fields[f] = true
+			return fmt.Sprintf("%s.%s_empty = true", recv, f), nil
+		}
+		rhs, _, err := constVal(x.Y, consts)
+		if err != nil {
+			return "", err
+		}
+		fields[f] = false
+		var op string
+		switch x.Op {
+		case token.LEQ:
+			op = "≤"
+		case token.LSS:
+			op = "<"
+		case token.GTR:
+			op = ">"
+		case token.GEQ:
+			op = "≥"
+		case token.EQL:
+			op = "="
+		default:
+			return "", fmt.Errorf("unsupported comparison %s", x.Op)
+		}
+		return fmt.Sprintf("%s.%s %s %s", recv, f, op, rhs), nil
+	}
+	return "", fmt.Errorf("unsupported condition %T", e)
+}
+
+func trValidate(repo string) (string, error) {
+	pkgs := []vpkg{
+		{"Gen.Validate.HTTP", "frontend/http", []string{"parser.go", "frontend.go"}},
+		{"Gen.Validate.UDP", "frontend/udp", []string{"parser.go", "frontend.go"}},
+		{"Gen.Validate.Memory", "storage/memory", []string{"peer_store.go"}},
+		{"Gen.Validate.Redis", "storage/redis", []string{"peer_store.go"}},
+	}
+	out := "/- GENERATED by harness/tr from the four Config.Validate methods — do not edit; regenerated on every check. -/\n\n"
+	for _, p := range pkgs {
+		s, err := trValidateOne(repo, p)
+		if err != nil {
+			return "", err
+		}
+		out += s
+	}
+	return out, nil
+}
